@@ -843,6 +843,8 @@ def register(M):
     def it_take(ev, fr, prog, fty, args, cx):
         it = itv(ev, args[0])
         n = args[1]
+        if it.op == "eiter":
+            M.order_event(ev, "take", it)
         if it.op == "eiter" and n.op == "num":
             items = M.eiter_items(it)
             if all(g is tm.TRUE for g, _ in items):
@@ -920,6 +922,7 @@ def register(M):
         it = itv(ev, args[0])
         init, f = args[1], args[2]
         if it.op == "eiter":
+            M.order_event(ev, "fold", it)
             acc = init
             for g, x in M.eiter_items(it):
                 acc = tm.ite(g, M.apply_gated(ev, g, f, [acc, x]), acc)
